@@ -73,6 +73,6 @@ package expand
 
 //@ func (*handler).Expand
 //@   props C09 C13 C17
-//@   requires h != nil && h.d != nil && ctx != nil && req != nil && wfwiresubject(req.Subject)
+//@   requires h != nil && h.d != nil && ctx != nil && req != nil && wfwiresubjectwrapper(req.Subject)
 //@   modifies db, faulted
 //@   ensures[C17] read-only: db == old(db)
